@@ -9,6 +9,7 @@ require (
 	github.com/go-jose/go-jose/v4 v4.0.5
 	github.com/m7913d/go-ntlm v0.0.1
 	golang.org/x/oauth2 v0.18.0
+	google.golang.org/grpc v1.62.1
 )
 
 require (
@@ -45,7 +46,6 @@ require (
 	golang.org/x/sys v0.29.0 // indirect
 	golang.org/x/text v0.21.0 // indirect
 	google.golang.org/genproto/googleapis/rpc v0.0.0-20240314234333-6e1732d8331c // indirect
-	google.golang.org/grpc v1.62.1 // indirect
 	google.golang.org/protobuf v1.33.0 // indirect
 	gopkg.in/yaml.v3 v3.0.1 // indirect
 )
